@@ -1,0 +1,130 @@
+//go:build verif
+
+// Contracts for the deductive checks under /verif (comment-only; no code).
+
+package ipns
+
+// ---- C27: record selection ---------------------------------------------------
+// abstract signed content of a record (what the CBOR document says)
+//@ spec recSeq(r *Record) uint64
+//@ spec recEOL(r *Record) Int
+//@ spec timeInstant(t time.Time) Int
+//@ macro hasV2(r) = r.pb != nil && r.pb.SignatureV2 != nil
+
+//@ func (*Record).Sequence
+//@   assumed
+//@   ensures err == nil ==> result0 == recSeq(rec)
+//@ func (*Record).Validity
+//@   assumed
+//@   ensures err == nil ==> timeInstant(result0) == recEOL(rec)
+//@ func ext (time.Time).After
+//@   ensures result == (timeInstant(t) > timeInstant(u))
+// bytes.Compare is a total preorder on contents, embedded into the integers by bytesRank
+//@ spec bytesRank(b []byte) Int
+//@ func ext bytes.Compare
+//@   ensures (result < 0 <==> bytesRank(a) < bytesRank(b)) && (result == 0 <==> bytesRank(a) == bytesRank(b))
+
+// lexicographic comparison of (has V2 signature, sequence, end of life)
+//@ spec keyCmp(av bool, as uint64, ae Int, bv bool, bs uint64, be Int) int = ite(av && !bv, 1, ite(!av && bv, 0 - 1, ite(as > bs, 1, ite(as < bs, 0 - 1, ite(ae > be, 1, ite(ae < be, 0 - 1, 0))))))
+// a's full key (with the value bytes as the final tie-break) is >= b's
+//@ spec atLeast(av bool, as uint64, ae Int, ar Int, bv bool, bs uint64, be Int, br Int) bool = keyCmp(av, as, ae, bv, bs, be) > 0 || (keyCmp(av, as, ae, bv, bs, be) == 0 && ar >= br)
+
+//@ func compare
+//@   prop C27
+//@   arith int
+//@   requires a != nil && b != nil
+//@   ensures[lexicographic] err == nil ==> result0 == keyCmp(hasV2(a), recSeq(a), recEOL(a), hasV2(b), recSeq(b), recEOL(b))
+
+//@ func selectRecord
+//@   prop C27
+//@   arith int
+//@   safety index
+//@   requires[same_len] len(vals) == len(recs)
+//@   requires[non_nil] forall(k, 0, len(recs), recs[k] != nil)
+//@   loop 0 invariant[bounds] 0 <= i && i < j && j <= len(recs)
+//@   loop 0 invariant[best_so_far] forall(k, 0, j, atLeast(hasV2(recs[i]), recSeq(recs[i]), recEOL(recs[i]), bytesRank(vals[i]), hasV2(recs[k]), recSeq(recs[k]), recEOL(recs[k]), bytesRank(vals[k])))
+//@   ensures[in_range] err == nil ==> 0 <= result0 && result0 < len(recs)
+//@   ensures[maximal] err == nil ==> forall(k, 0, len(recs), atLeast(hasV2(recs[result0]), recSeq(recs[result0]), recEOL(recs[result0]), bytesRank(vals[result0]), hasV2(recs[k]), recSeq(recs[k]), recEOL(recs[k]), bytesRank(vals[k])))
+//@   ensures[empty] len(recs) == 0 ==> err != nil
+
+// order independence: two maximal elements have the same value bytes (rank), so the
+// selected bytes are the unique maximum of the multiset whatever the input order
+//@ lemma[C27] unique_maximum (av bool, as uint64, ae Int, ar Int, bv bool, bs uint64, be Int, br Int): atLeast(av, as, ae, ar, bv, bs, be, br) && atLeast(bv, bs, be, br, av, as, ae, ar) ==> ar == br && keyCmp(av, as, ae, bv, bs, be) == 0
+//@ lemma[C27] total (av bool, as uint64, ae Int, ar Int, bv bool, bs uint64, be Int, br Int): atLeast(av, as, ae, ar, bv, bs, be, br) || atLeast(bv, bs, be, br, av, as, ae, ar)
+//@ lemma[C27] transitive (av bool, as uint64, ae Int, ar Int, bv bool, bs uint64, be Int, br Int, cv bool, cs uint64, ce Int, cr Int): atLeast(av, as, ae, ar, bv, bs, be, br) && atLeast(bv, bs, be, br, cv, cs, ce, cr) ==> atLeast(av, as, ae, ar, cv, cs, ce, cr)
+
+//@ func UnmarshalRecord
+//@   assumed
+//@   ensures err == nil ==> result0 != nil
+
+//@ func (Validator).Select
+//@   prop C27
+//@   arith int
+//@   modifies all
+//@   loop 0 invariant[one_per_value] len(recs) == rangeindex + 1
+//@   loop 0 invariant[non_nil] forall(k, 0, len(recs), recs[k] != nil)
+
+// ---- C25: validation is a conjunction of guards over the results of the calls it makes
+//@ spec verifies(pk crypto.PubKey, data []byte, sig []byte) bool
+//@ func iface github.com/libp2p/go-libp2p/core/crypto.PubKey.Verify
+//@   ensures result0 == verifies(self, data, sig)
+//@ spec pbSizeOf(m proto.Message) int
+//@ func ext google.golang.org/protobuf/proto.Size
+//@   ensures result == pbSizeOf(m)
+//@ spec bytesEq(a []byte, b []byte) bool
+//@ func ext bytes.Equal
+//@   ensures result == bytesEq(a, b)
+//@ func (*Record).TTL
+//@   assumed
+//@ func ext time.Now
+//@   noeffect
+//@ func recordDataForSignatureV2
+//@   prop C25
+//@   arith bv
+//@   ensures[never_fails] err == nil
+//@   ensures[prefix_plus_data] len(result0) == 15 + len(data)
+
+//@ macro legacyType(e) = ite(e.ValidityType != nil, deref(e.ValidityType), 0)
+//@ macro legacySeq(e) = ite(e.Sequence != nil, deref(e.Sequence), 0)
+//@ macro legacyTtl(e) = ite(e.Ttl != nil, deref(e.Ttl), 0)
+
+// every legacy protobuf field is compared with the field of the same name in the decoded CBOR document
+//@ func validateCborDataMatchesPbData
+//@   prop C25
+//@   arith bv
+//@   requires entry != nil
+//@   modifies elems(entry.Data), elems(entry.Value), elems(entry.Validity)
+//@   site[decode_signed_data] call:NewReader : arg0 == entry.Data
+//@   site[lookup_value] invoke:LookupByString#0 : arg0 == res("invoke:Build#0") && arg1 == "Value"
+//@   site[lookup_validity] invoke:LookupByString#1 : arg0 == res("invoke:Build#0") && arg1 == "Validity"
+//@   site[lookup_type] invoke:LookupByString#2 : arg0 == res("invoke:Build#0") && arg1 == "ValidityType"
+//@   site[lookup_sequence] invoke:LookupByString#3 : arg0 == res("invoke:Build#0") && arg1 == "Sequence"
+//@   site[lookup_ttl] invoke:LookupByString#4 : arg0 == res("invoke:Build#0") && arg1 == "TTL"
+//@   site[bytes_of_value] invoke:AsBytes#0 : arg0 == res("invoke:LookupByString#0")
+//@   site[bytes_of_validity] invoke:AsBytes#1 : arg0 == res("invoke:LookupByString#1")
+//@   site[int_of_type] invoke:AsInt#0 : arg0 == res("invoke:LookupByString#2")
+//@   site[int_of_sequence] invoke:AsInt#1 : arg0 == res("invoke:LookupByString#3")
+//@   site[int_of_ttl] invoke:AsInt#2 : arg0 == res("invoke:LookupByString#4")
+//@   ensures[value_agrees] err == nil ==> bytesEq(entry.Value, res("invoke:AsBytes#0"))
+//@   ensures[validity_agrees] err == nil ==> bytesEq(entry.Validity, res("invoke:AsBytes#1"))
+//@   ensures[type_agrees] err == nil ==> int64(legacyType(entry)) == res("invoke:AsInt#0")
+//@   ensures[sequence_agrees] err == nil ==> legacySeq(entry) == uint64(res("invoke:AsInt#1"))
+//@   ensures[ttl_agrees] err == nil ==> legacyTtl(entry) == uint64(res("invoke:AsInt#2"))
+//@   ensures[all_lookups_ok] err == nil ==> res("invoke:LookupByString#0", 1) == nil && res("invoke:LookupByString#4", 1) == nil && res("call:Decode#0") == nil
+
+//@ func Validate
+//@   prop C25
+//@   arith bv
+//@   requires rec != nil && rec.pb != nil
+//@   modifies all
+//@   site[size_of_this_record] call:Size : arg0 == asIface(rec.pb)
+//@   site[sig_over_signed_data] call:recordDataForSignatureV2 : arg0 == rec.pb.Data
+//@   site[verify_args] invoke:Verify : arg0 == pk && arg1 == res("call:recordDataForSignatureV2#0") && arg2 == rec.pb.SignatureV2
+//@   site[legacy_of_this_record] call:validateCborDataMatchesPbData : arg0 == rec.pb
+//@   ensures[size] err == nil ==> pbSizeOf(asIface(old(rec.pb))) <= MaxRecordSize
+//@   ensures[sig_present] err == nil ==> old(len(rec.pb.SignatureV2) != 0 && len(rec.pb.Data) != 0)
+//@   ensures[sig_verified] err == nil ==> verifies(pk, res("call:recordDataForSignatureV2#0"), old(rec.pb.SignatureV2))
+//@   ensures[legacy_checked] err == nil && old(len(rec.pb.SignatureV1) != 0 || len(rec.pb.Value) != 0) ==> res("call:validateCborDataMatchesPbData#0") == nil
+//@   ensures[legacy_always_checked] err == nil ==> res("call:validateCborDataMatchesPbData#0") == nil
+//@   ensures[not_expired] err == nil ==> res("call:Validity#0", 1) == nil && !(timeInstant(res("call:Now#0")) > recEOL(rec))
+//@   ensures[ttl_not_negative] err == nil ==> res("call:TTL#0", 1) != nil || res("call:TTL#0", 0) >= 0
